@@ -3027,15 +3027,27 @@ def _coerce_to__arglikes(
 
     elif codea_cls is _type_params:
         coerced = True
+        seen_keyword = seen_dstar = False  # type params order is free but call arguments order is not, `call(**a, *b)` and `call(**a, b)` are invalid
 
         for a in codea.type_params:
             a_cls = a.__class__
 
             if a_cls is TypeVar:
                 ast = _coerce_to__arglike_ast_TypeVar(a, is_FST, options, parse_params)
+
+                if ast.__class__ is keyword:
+                    seen_keyword = True
+                elif seen_keyword or seen_dstar:
+                    raise _coerce_error('_arglikes', '_type_params', 'positional follows keyword')
+
             elif a_cls is ParamSpec:
                 ast = _coerce_to__arglike_ast_ParamSpec(a, is_FST, options, parse_params)
+                seen_dstar = True
+
             elif a_cls is TypeVarTuple:
+                if seen_dstar:
+                    raise _coerce_error('_arglikes', '_type_params', 'TypeVarTuple follows ParamSpec')
+
                 ast, _ = _coerce_to_expr_ast(a, is_FST, options, parse_params, 'expression (arglike)', unmake=False)
 
             arglikes.append(ast)
